@@ -585,7 +585,7 @@ registry! {
     c13_fold_2, "C13", experimental, 8, plain, 900 => c13::fold(2, false); // 2 LWW updates of one key in the compacted segments: symbolic stamps (two replicas may share a time), bytes, tombstones; tombstone cutoff = any u64
     c13_fold_2_outside, "C13", experimental, 8, plain, 1200 => c13::fold(2, true); // same + optionally one update of the key in a segment/checkpoint outside the compaction
     c13_fold_3, "C13", experimental, 8, plain, 1800 => c13::fold(3, false); // 3 LWW updates of one key in the compacted segments
-    c11_plan_2, "C11", experimental, 8, plain, 600 => c11::segment_plan(2); // recover()'s segment selection: 2 listed segments, symbolic ids/min stamps, optional checkpoint with symbolic last_segment_id
+    c11_plan_2, "C11", experimental, 8, plain, 600 => c11::segment_plan(2); // recover()'s segment selection: 2 listed segments, ids 1..n in either list order, minimum stamps from {5,7} (equal minima included), optional checkpoint with last_segment_id in 0..=3
     c11_plan_3, "C11", experimental, 8, plain, 900 => c11::segment_plan(3); // same with 3 listed segments
     c08_recovered_then_write, "C08", experimental, 6, noexec, 900 => c08::recovered_then_write(); // checkpoint entry (any stamp/author) enters through the ApplyRecoveredState arm (S10), then a local write: its stamp must exceed the recovered one
     c19_ring_l3_lookup_rf2, "C19", experimental, 10, ring, 900 => c19::ring(3, 0, 2); // layout 3 (2 members x 2 virtual nodes), key position = any u64, rf = 2: lookup
@@ -601,4 +601,122 @@ registry! {
     c13_fold_2_outside_c2, "C13", experimental, 8, plain, 1200 => c13::fold(2, true); // as c13_fold_2_outside with the 2-slot container model
     c13_fold_3_c2, "C13", experimental, 8, plain, 1800 => c13::fold(3, false); // 3 updates, 2-slot container model
     c13_twin_c2, "C13", experimental, 8, plain, 300 => c13::twin();
+    c08_state_write_c2, "C08", experimental,    6, plain, 600 => c08::state_step(0); // one key, LWW values, arbitrary I-state + arbitrary remote delta, then record_write
+    c08_state_delete_c2, "C08", experimental,    6, plain, 600 => c08::state_step(1); // same, then record_delete
+    c06_pair_set_set_pre1_c2, "C06", experimental, 6, plain, 1500 => c06::pair(0, 0, 1); // A: SET, B: SET on one key, pre-state common LWW value; symbolic clocks and bytes; deltas cross-delivered once
+    c06_pair_set_hset_pre0_c2, "C06", experimental, 6, plain, 1500 => c06::pair(0, 2, 0); // A: SET, B: HSET on one key, pre-state absent; symbolic clocks and bytes; deltas cross-delivered once
+    c06_pair_del_hset_pre1_c2, "C06", experimental, 6, plain, 1500 => c06::pair(1, 2, 1); // A: DEL, B: HSET on one key, pre-state common LWW value; symbolic clocks and bytes; deltas cross-delivered once
+    c06_pair_hset_hset_pre0_c2, "C06", experimental, 6, plain, 1500 => c06::pair(2, 2, 0); // A: HSET, B: HSET on one key, pre-state absent; symbolic clocks and bytes; deltas cross-delivered once
+    c06_pair_hset_hdel_pre0_c2, "C06", experimental, 6, plain, 1500 => c06::pair(2, 3, 0); // A: HSET, B: HDEL on one key, pre-state absent; symbolic clocks and bytes; deltas cross-delivered once
+    c06_dup_reorder_c2, "C06", experimental, 6, plain, 1500 => c06::dup_reorder(); // SET/SET with each delta delivered twice
+    c18_bucket_order_3_c2, "C18", experimental, 40, hasher, 600 => c18::bucket_order(3); // 3 arbitrary key digests, all 6 orders
+    c18_state_order_d0_c2, "C18", experimental, 12, hasher, 900 => c18::state_insertion_order(0); // keys a,b with symbolic LWW values, two insertion orders, 1 bucket
+    c18_sound_hash_c2, "C18", experimental, 52, hasher, 900 => c18::key_digest_sound(2); // hash {f} with equal outer stamp, different field registers
+    c07_gcounter_comm_c2, "C07", experimental, 8, plain, 2400 => c07::gcounter_law(0); // 2 replicas, symbolic u32 counts and presence
+    c07_gcounter_assoc_c2, "C07", experimental, 8, plain, 2400 => c07::gcounter_law(2); // 2 replicas, symbolic u32 counts and presence
+    c07_pncounter_comm_c2, "C07", experimental, 8, plain, 2400 => c07::pncounter_law(0); // 2 replicas, symbolic u32 increments, 1 decrement
+    c07_gset_comm_c2, "C07", experimental, 8, plain, 2400 => c07::gset_law(0); // elements subset of {a,b}
+    c07_gset_assoc_c2, "C07", experimental, 8, plain, 2400 => c07::gset_law(2); // elements subset of {a,b}
+    c07_orset_comm_c2, "C07", experimental, 8, plain, 2400 => c07::orset_law(0); // element a: optional add/remove/re-add per replica
+    c07_orset_assoc_c2, "C07", experimental, 8, plain, 2400 => c07::orset_law(2); // element a: optional add/remove/re-add per replica
+    c07_vclock_comm_c2, "C07", experimental, 8, plain, 2400 => c07::vclock_law(0); // 2 replicas, 0-2 increments each
+    c07_vclock_assoc_c2, "C07", experimental, 8, plain, 2400 => c07::vclock_law(2); // 2 replicas, 0-2 increments each
+    c07_hash_f_comm_c2, "C07", experimental, 8, plain, 2400 => c07::hash_law(0, false); // hash over field f: symbolic register, stamps, expiry
+    c07_hash_fg_comm_c2, "C07", experimental, 8, plain, 3000 => c07::hash_law(0, true); // hash over fields f,g
+    c07_hash_f_idem_c2, "C07", experimental, 8, plain, 2400 => c07::hash_law(1, false); // hash over field f: symbolic register, stamps, expiry
+    c07_hash_f_assoc_c2, "C07", experimental, 8, plain, 2400 => c07::hash_law(2, false); // hash over field f: symbolic register, stamps, expiry
+    c07_hash_fg_assoc_c2, "C07", experimental, 8, plain, 3000 => c07::hash_law(2, true); // hash over fields f,g
+    c07_mixed_comm_c2, "C07", experimental, 8, plain, 2400 => c07::mixed_comm(); // LWW vs hash{f}: type-mismatch path
+    c07_mixed_assoc_hlh_c2, "C07", experimental, 8, plain, 2400 => c07::mixed_assoc_hlh(); // (Hash,Lww,Hash), concrete payloads, symbolic distinct stamps
+    c06_observers_hset_hdel_causal_preg_c2, "C06", experimental, 6, plain, 2400 => c06::observers(2, 3, true, true); // A: HSET, B: HDEL after seeing A; observers holding hash {g} apply both deltas in both orders
+    c06_observers_hset_hdel_causal_c2, "C06", experimental, 6, plain, 2400 => c06::observers(2, 3, true, false); // A: HSET, B: HDEL after seeing A; observers without the key apply both deltas in both orders
+    c06_observers_hset_hset_preg_c2, "C06", experimental, 6, plain, 2400 => c06::observers(2, 2, false, true); // A: HSET, B: HSET; observers holding hash {g} apply both deltas in both orders
+    c06_observers_set_hset_c2, "C06", experimental, 6, plain, 2400 => c06::observers(0, 2, false, false); // A: SET, B: HSET; observers without the key apply both deltas in both orders
+    c06_observers_hset_hdel_preg_c2, "C06", experimental, 6, plain, 2400 => c06::observers(2, 3, false, true); // A: HSET, B: HDEL; observers holding hash {g} apply both deltas in both orders
+    c06_glue_hash_f_c2, "C06", experimental, 8, recexec, 900 => c06::glue_hash(false); // glue: hash deltas {f} then {f} through apply_remote_delta_impl (S11), recording executor; served field == replication state
+    c06_glue_hash_fg_c2, "C06", experimental, 8, recexec, 1200 => c06::glue_hash(true); // glue: hash deltas {f} then {f,g}
+    c06_glue_lww_c2, "C06", experimental, 8, recexec, 900 => c06::glue_lww(); // glue: two LWW deltas (values / tombstones, any stamp order); GET serves what the state says
+    c08_clock_flushall_c2, "C08", experimental, 6, plain, 600 => c08::clock_monotone(0); // FLUSHALL through record_mutation_post_execute (S11): the clock does not move backwards
+    c08_clock_flushdb_c2, "C08", experimental, 6, plain, 600 => c08::clock_monotone(1); // FLUSHDB
+    c08_clock_set_c2, "C08", experimental, 6, plain, 600 => c08::clock_monotone(2); // SET of another key
+    c08_clock_del_c2, "C08", experimental, 6, plain, 600 => c08::clock_monotone(3); // DEL of an absent key
+    c08_clock_hset_c2, "C08", experimental, 6, plain, 600 => c08::clock_monotone(4); // HSET
+    c08_clock_hdel_c2, "C08", experimental, 6, plain, 600 => c08::clock_monotone(5); // HDEL of an absent hash
+    c08_clock_incr_c2, "C08", experimental, 6, plain, 600 => c08::clock_monotone(6); // INCR (executor holds nothing)
+    c08_clock_get_c2, "C08", experimental, 6, plain, 600 => c08::clock_monotone(7); // GET (not a mutation)
+    c08_clock_ping_c2, "C08", experimental, 6, plain, 600 => c08::clock_monotone(8); // PING
+    c16_armv_get, "C16", experimental, 12, ascii, 900 => c16::arm_spec(b"GET", &[A::S(1)], c16arm!(GET)); // GET arm of both parsers (S7), 1 argument(s): keys/values 1 symbolic byte, numbers 1 symbolic digit with optional sign, keywords in any letter case
+    c16_armv_set, "C16", experimental, 12, ascii, 900 => c16::arm_spec(b"SET", &[A::S(1), A::S(1)], c16arm!(SET)); // SET arm of both parsers (S7), 2 argument(s): keys/values 1 symbolic byte, numbers 1 symbolic digit with optional sign, keywords in any letter case
+    c16_armv_set_ex, "C16", experimental, 12, ascii, 900 => c16::arm_spec(b"SET", &[A::S(1), A::S(1), A::K(b"EX"), A::D(1)], c16arm!(SET)); // SET arm of both parsers (S7), 4 argument(s): keys/values 1 symbolic byte, numbers 1 symbolic digit with optional sign, keywords in any letter case
+    c16_armv_set_px, "C16", experimental, 12, ascii, 900 => c16::arm_spec(b"SET", &[A::S(1), A::S(1), A::K(b"PX"), A::D(1)], c16arm!(SET)); // SET arm of both parsers (S7), 4 argument(s): keys/values 1 symbolic byte, numbers 1 symbolic digit with optional sign, keywords in any letter case
+    c16_armv_set_nx, "C16", experimental, 12, ascii, 900 => c16::arm_spec(b"SET", &[A::S(1), A::S(1), A::K(b"NX")], c16arm!(SET)); // SET arm of both parsers (S7), 3 argument(s): keys/values 1 symbolic byte, numbers 1 symbolic digit with optional sign, keywords in any letter case
+    c16_armv_set_xx_get, "C16", experimental, 12, ascii, 900 => c16::arm_spec(b"SET", &[A::S(1), A::S(1), A::K(b"XX"), A::K(b"GET")], c16arm!(SET)); // SET arm of both parsers (S7), 4 argument(s): keys/values 1 symbolic byte, numbers 1 symbolic digit with optional sign, keywords in any letter case
+    c16_armv_setex, "C16", experimental, 12, ascii, 900 => c16::arm_spec(b"SETEX", &[A::S(1), A::D(1), A::S(1)], c16arm!(SETEX)); // SETEX arm of both parsers (S7), 3 argument(s): keys/values 1 symbolic byte, numbers 1 symbolic digit with optional sign, keywords in any letter case
+    c16_armv_psetex, "C16", experimental, 12, ascii, 900 => c16::arm_spec(b"PSETEX", &[A::S(1), A::D(1), A::S(1)], c16arm!(PSETEX)); // PSETEX arm of both parsers (S7), 3 argument(s): keys/values 1 symbolic byte, numbers 1 symbolic digit with optional sign, keywords in any letter case
+    c16_armv_setnx, "C16", experimental, 12, ascii, 900 => c16::arm_spec(b"SETNX", &[A::S(1), A::S(1)], c16arm!(SETNX)); // SETNX arm of both parsers (S7), 2 argument(s): keys/values 1 symbolic byte, numbers 1 symbolic digit with optional sign, keywords in any letter case
+    c16_armv_getset, "C16", experimental, 12, ascii, 900 => c16::arm_spec(b"GETSET", &[A::S(1), A::S(1)], c16arm!(GETSET)); // GETSET arm of both parsers (S7), 2 argument(s): keys/values 1 symbolic byte, numbers 1 symbolic digit with optional sign, keywords in any letter case
+    c16_armv_append, "C16", experimental, 12, ascii, 900 => c16::arm_spec(b"APPEND", &[A::S(1), A::S(1)], c16arm!(APPEND)); // APPEND arm of both parsers (S7), 2 argument(s): keys/values 1 symbolic byte, numbers 1 symbolic digit with optional sign, keywords in any letter case
+    c16_armv_strlen, "C16", experimental, 12, ascii, 900 => c16::arm_spec(b"STRLEN", &[A::S(1)], c16arm!(STRLEN)); // STRLEN arm of both parsers (S7), 1 argument(s): keys/values 1 symbolic byte, numbers 1 symbolic digit with optional sign, keywords in any letter case
+    c16_armv_incr, "C16", experimental, 12, ascii, 900 => c16::arm_spec(b"INCR", &[A::S(1)], c16arm!(INCR)); // INCR arm of both parsers (S7), 1 argument(s): keys/values 1 symbolic byte, numbers 1 symbolic digit with optional sign, keywords in any letter case
+    c16_armv_decr, "C16", experimental, 12, ascii, 900 => c16::arm_spec(b"DECR", &[A::S(1)], c16arm!(DECR)); // DECR arm of both parsers (S7), 1 argument(s): keys/values 1 symbolic byte, numbers 1 symbolic digit with optional sign, keywords in any letter case
+    c16_armv_incrby, "C16", experimental, 12, ascii, 900 => c16::arm_spec(b"INCRBY", &[A::S(1), A::D(1)], c16arm!(INCRBY)); // INCRBY arm of both parsers (S7), 2 argument(s): keys/values 1 symbolic byte, numbers 1 symbolic digit with optional sign, keywords in any letter case
+    c16_armv_decrby, "C16", experimental, 12, ascii, 900 => c16::arm_spec(b"DECRBY", &[A::S(1), A::D(1)], c16arm!(DECRBY)); // DECRBY arm of both parsers (S7), 2 argument(s): keys/values 1 symbolic byte, numbers 1 symbolic digit with optional sign, keywords in any letter case
+    c16_armv_del, "C16", experimental, 12, ascii, 900 => c16::arm_spec(b"DEL", &[A::S(1), A::S(1)], c16arm!(DEL)); // DEL arm of both parsers (S7), 2 argument(s): keys/values 1 symbolic byte, numbers 1 symbolic digit with optional sign, keywords in any letter case
+    c16_armv_exists, "C16", experimental, 12, ascii, 900 => c16::arm_spec(b"EXISTS", &[A::S(1)], c16arm!(EXISTS)); // EXISTS arm of both parsers (S7), 1 argument(s): keys/values 1 symbolic byte, numbers 1 symbolic digit with optional sign, keywords in any letter case
+    c16_armv_type, "C16", experimental, 12, ascii, 900 => c16::arm_spec(b"TYPE", &[A::S(1)], c16arm!(TYPE)); // TYPE arm of both parsers (S7), 1 argument(s): keys/values 1 symbolic byte, numbers 1 symbolic digit with optional sign, keywords in any letter case
+    c16_armv_expire, "C16", experimental, 12, ascii, 900 => c16::arm_spec(b"EXPIRE", &[A::S(1), A::D(1)], c16arm!(EXPIRE)); // EXPIRE arm of both parsers (S7), 2 argument(s): keys/values 1 symbolic byte, numbers 1 symbolic digit with optional sign, keywords in any letter case
+    c16_armv_expire_nx, "C16", experimental, 12, ascii, 900 => c16::arm_spec(b"EXPIRE", &[A::S(1), A::D(1), A::K(b"NX")], c16arm!(EXPIRE)); // EXPIRE arm of both parsers (S7), 3 argument(s): keys/values 1 symbolic byte, numbers 1 symbolic digit with optional sign, keywords in any letter case
+    c16_armv_expire_gt, "C16", experimental, 12, ascii, 900 => c16::arm_spec(b"EXPIRE", &[A::S(1), A::D(1), A::K(b"GT")], c16arm!(EXPIRE)); // EXPIRE arm of both parsers (S7), 3 argument(s): keys/values 1 symbolic byte, numbers 1 symbolic digit with optional sign, keywords in any letter case
+    c16_armv_pexpire, "C16", experimental, 12, ascii, 900 => c16::arm_spec(b"PEXPIRE", &[A::S(1), A::D(1)], c16arm!(PEXPIRE)); // PEXPIRE arm of both parsers (S7), 2 argument(s): keys/values 1 symbolic byte, numbers 1 symbolic digit with optional sign, keywords in any letter case
+    c16_armv_expireat, "C16", experimental, 12, ascii, 900 => c16::arm_spec(b"EXPIREAT", &[A::S(1), A::D(1)], c16arm!(EXPIREAT)); // EXPIREAT arm of both parsers (S7), 2 argument(s): keys/values 1 symbolic byte, numbers 1 symbolic digit with optional sign, keywords in any letter case
+    c16_armv_ttl, "C16", experimental, 12, ascii, 900 => c16::arm_spec(b"TTL", &[A::S(1)], c16arm!(TTL)); // TTL arm of both parsers (S7), 1 argument(s): keys/values 1 symbolic byte, numbers 1 symbolic digit with optional sign, keywords in any letter case
+    c16_armv_pttl, "C16", experimental, 12, ascii, 900 => c16::arm_spec(b"PTTL", &[A::S(1)], c16arm!(PTTL)); // PTTL arm of both parsers (S7), 1 argument(s): keys/values 1 symbolic byte, numbers 1 symbolic digit with optional sign, keywords in any letter case
+    c16_armv_persist, "C16", experimental, 12, ascii, 900 => c16::arm_spec(b"PERSIST", &[A::S(1)], c16arm!(PERSIST)); // PERSIST arm of both parsers (S7), 1 argument(s): keys/values 1 symbolic byte, numbers 1 symbolic digit with optional sign, keywords in any letter case
+    c16_armv_lpush, "C16", experimental, 12, ascii, 900 => c16::arm_spec(b"LPUSH", &[A::S(1), A::S(1)], c16arm!(LPUSH)); // LPUSH arm of both parsers (S7), 2 argument(s): keys/values 1 symbolic byte, numbers 1 symbolic digit with optional sign, keywords in any letter case
+    c16_armv_rpush, "C16", experimental, 12, ascii, 900 => c16::arm_spec(b"RPUSH", &[A::S(1), A::S(1), A::S(1)], c16arm!(RPUSH)); // RPUSH arm of both parsers (S7), 3 argument(s): keys/values 1 symbolic byte, numbers 1 symbolic digit with optional sign, keywords in any letter case
+    c16_armv_lpop, "C16", experimental, 12, ascii, 900 => c16::arm_spec(b"LPOP", &[A::S(1)], c16arm!(LPOP)); // LPOP arm of both parsers (S7), 1 argument(s): keys/values 1 symbolic byte, numbers 1 symbolic digit with optional sign, keywords in any letter case
+    c16_armv_rpop, "C16", experimental, 12, ascii, 900 => c16::arm_spec(b"RPOP", &[A::S(1)], c16arm!(RPOP)); // RPOP arm of both parsers (S7), 1 argument(s): keys/values 1 symbolic byte, numbers 1 symbolic digit with optional sign, keywords in any letter case
+    c16_armv_llen, "C16", experimental, 12, ascii, 900 => c16::arm_spec(b"LLEN", &[A::S(1)], c16arm!(LLEN)); // LLEN arm of both parsers (S7), 1 argument(s): keys/values 1 symbolic byte, numbers 1 symbolic digit with optional sign, keywords in any letter case
+    c16_armv_lrange, "C16", experimental, 12, ascii, 900 => c16::arm_spec(b"LRANGE", &[A::S(1), A::D(1), A::D(1)], c16arm!(LRANGE)); // LRANGE arm of both parsers (S7), 3 argument(s): keys/values 1 symbolic byte, numbers 1 symbolic digit with optional sign, keywords in any letter case
+    c16_armv_lindex, "C16", experimental, 12, ascii, 900 => c16::arm_spec(b"LINDEX", &[A::S(1), A::D(1)], c16arm!(LINDEX)); // LINDEX arm of both parsers (S7), 2 argument(s): keys/values 1 symbolic byte, numbers 1 symbolic digit with optional sign, keywords in any letter case
+    c16_armv_lset, "C16", experimental, 12, ascii, 900 => c16::arm_spec(b"LSET", &[A::S(1), A::D(1), A::S(1)], c16arm!(LSET)); // LSET arm of both parsers (S7), 3 argument(s): keys/values 1 symbolic byte, numbers 1 symbolic digit with optional sign, keywords in any letter case
+    c16_armv_ltrim, "C16", experimental, 12, ascii, 900 => c16::arm_spec(b"LTRIM", &[A::S(1), A::D(1), A::D(1)], c16arm!(LTRIM)); // LTRIM arm of both parsers (S7), 3 argument(s): keys/values 1 symbolic byte, numbers 1 symbolic digit with optional sign, keywords in any letter case
+    c16_armv_rpoplpush, "C16", experimental, 12, ascii, 900 => c16::arm_spec(b"RPOPLPUSH", &[A::S(1), A::S(1)], c16arm!(RPOPLPUSH)); // RPOPLPUSH arm of both parsers (S7), 2 argument(s): keys/values 1 symbolic byte, numbers 1 symbolic digit with optional sign, keywords in any letter case
+    c16_armv_lmove, "C16", experimental, 12, ascii, 900 => c16::arm_spec(b"LMOVE", &[A::S(1), A::S(1), A::K(b"LEFT"), A::K(b"RIGHT")], c16arm!(LMOVE)); // LMOVE arm of both parsers (S7), 4 argument(s): keys/values 1 symbolic byte, numbers 1 symbolic digit with optional sign, keywords in any letter case
+    c16_armv_lmove_rl, "C16", experimental, 12, ascii, 900 => c16::arm_spec(b"LMOVE", &[A::S(1), A::S(1), A::K(b"RIGHT"), A::K(b"LEFT")], c16arm!(LMOVE)); // LMOVE arm of both parsers (S7), 4 argument(s): keys/values 1 symbolic byte, numbers 1 symbolic digit with optional sign, keywords in any letter case
+    c16_armv_sadd, "C16", experimental, 12, ascii, 900 => c16::arm_spec(b"SADD", &[A::S(1), A::S(1)], c16arm!(SADD)); // SADD arm of both parsers (S7), 2 argument(s): keys/values 1 symbolic byte, numbers 1 symbolic digit with optional sign, keywords in any letter case
+    c16_armv_srem, "C16", experimental, 12, ascii, 900 => c16::arm_spec(b"SREM", &[A::S(1), A::S(1)], c16arm!(SREM)); // SREM arm of both parsers (S7), 2 argument(s): keys/values 1 symbolic byte, numbers 1 symbolic digit with optional sign, keywords in any letter case
+    c16_armv_sismember, "C16", experimental, 12, ascii, 900 => c16::arm_spec(b"SISMEMBER", &[A::S(1), A::S(1)], c16arm!(SISMEMBER)); // SISMEMBER arm of both parsers (S7), 2 argument(s): keys/values 1 symbolic byte, numbers 1 symbolic digit with optional sign, keywords in any letter case
+    c16_armv_smembers, "C16", experimental, 12, ascii, 900 => c16::arm_spec(b"SMEMBERS", &[A::S(1)], c16arm!(SMEMBERS)); // SMEMBERS arm of both parsers (S7), 1 argument(s): keys/values 1 symbolic byte, numbers 1 symbolic digit with optional sign, keywords in any letter case
+    c16_armv_scard, "C16", experimental, 12, ascii, 900 => c16::arm_spec(b"SCARD", &[A::S(1)], c16arm!(SCARD)); // SCARD arm of both parsers (S7), 1 argument(s): keys/values 1 symbolic byte, numbers 1 symbolic digit with optional sign, keywords in any letter case
+    c16_armv_spop, "C16", experimental, 12, ascii, 900 => c16::arm_spec(b"SPOP", &[A::S(1), A::G(1)], c16arm!(SPOP)); // SPOP arm of both parsers (S7), 2 argument(s): keys/values 1 symbolic byte, numbers 1 symbolic digit with optional sign, keywords in any letter case
+    c16_armv_hset, "C16", experimental, 12, ascii, 900 => c16::arm_spec(b"HSET", &[A::S(1), A::S(1), A::S(1)], c16arm!(HSET)); // HSET arm of both parsers (S7), 3 argument(s): keys/values 1 symbolic byte, numbers 1 symbolic digit with optional sign, keywords in any letter case
+    c16_armv_hget, "C16", experimental, 12, ascii, 900 => c16::arm_spec(b"HGET", &[A::S(1), A::S(1)], c16arm!(HGET)); // HGET arm of both parsers (S7), 2 argument(s): keys/values 1 symbolic byte, numbers 1 symbolic digit with optional sign, keywords in any letter case
+    c16_armv_hdel, "C16", experimental, 12, ascii, 900 => c16::arm_spec(b"HDEL", &[A::S(1), A::S(1)], c16arm!(HDEL)); // HDEL arm of both parsers (S7), 2 argument(s): keys/values 1 symbolic byte, numbers 1 symbolic digit with optional sign, keywords in any letter case
+    c16_armv_hgetall, "C16", experimental, 12, ascii, 900 => c16::arm_spec(b"HGETALL", &[A::S(1)], c16arm!(HGETALL)); // HGETALL arm of both parsers (S7), 1 argument(s): keys/values 1 symbolic byte, numbers 1 symbolic digit with optional sign, keywords in any letter case
+    c16_armv_hlen, "C16", experimental, 12, ascii, 900 => c16::arm_spec(b"HLEN", &[A::S(1)], c16arm!(HLEN)); // HLEN arm of both parsers (S7), 1 argument(s): keys/values 1 symbolic byte, numbers 1 symbolic digit with optional sign, keywords in any letter case
+    c16_armv_hexists, "C16", experimental, 12, ascii, 900 => c16::arm_spec(b"HEXISTS", &[A::S(1), A::S(1)], c16arm!(HEXISTS)); // HEXISTS arm of both parsers (S7), 2 argument(s): keys/values 1 symbolic byte, numbers 1 symbolic digit with optional sign, keywords in any letter case
+    c16_armv_hincrby, "C16", experimental, 12, ascii, 900 => c16::arm_spec(b"HINCRBY", &[A::S(1), A::S(1), A::D(1)], c16arm!(HINCRBY)); // HINCRBY arm of both parsers (S7), 3 argument(s): keys/values 1 symbolic byte, numbers 1 symbolic digit with optional sign, keywords in any letter case
+    c16_armv_zscore, "C16", experimental, 12, ascii, 900 => c16::arm_spec(b"ZSCORE", &[A::S(1), A::S(1)], c16arm!(ZSCORE)); // ZSCORE arm of both parsers (S7), 2 argument(s): keys/values 1 symbolic byte, numbers 1 symbolic digit with optional sign, keywords in any letter case
+    c16_armv_zrank, "C16", experimental, 12, ascii, 900 => c16::arm_spec(b"ZRANK", &[A::S(1), A::S(1)], c16arm!(ZRANK)); // ZRANK arm of both parsers (S7), 2 argument(s): keys/values 1 symbolic byte, numbers 1 symbolic digit with optional sign, keywords in any letter case
+    c16_armv_zrem, "C16", experimental, 12, ascii, 900 => c16::arm_spec(b"ZREM", &[A::S(1), A::S(1)], c16arm!(ZREM)); // ZREM arm of both parsers (S7), 2 argument(s): keys/values 1 symbolic byte, numbers 1 symbolic digit with optional sign, keywords in any letter case
+    c16_armv_zcard, "C16", experimental, 12, ascii, 900 => c16::arm_spec(b"ZCARD", &[A::S(1)], c16arm!(ZCARD)); // ZCARD arm of both parsers (S7), 1 argument(s): keys/values 1 symbolic byte, numbers 1 symbolic digit with optional sign, keywords in any letter case
+    c16_armv_zrange, "C16", experimental, 12, ascii, 900 => c16::arm_spec(b"ZRANGE", &[A::S(1), A::D(1), A::D(1)], c16arm!(ZRANGE)); // ZRANGE arm of both parsers (S7), 3 argument(s): keys/values 1 symbolic byte, numbers 1 symbolic digit with optional sign, keywords in any letter case
+    c16_armv_zrange_ws, "C16", experimental, 12, ascii, 900 => c16::arm_spec(b"ZRANGE", &[A::S(1), A::D(1), A::D(1), A::K(b"WITHSCORES")], c16arm!(ZRANGE)); // ZRANGE arm of both parsers (S7), 4 argument(s): keys/values 1 symbolic byte, numbers 1 symbolic digit with optional sign, keywords in any letter case
+    c16_armv_mget, "C16", experimental, 12, ascii, 900 => c16::arm_spec(b"MGET", &[A::S(1), A::S(1)], c16arm!(MGET)); // MGET arm of both parsers (S7), 2 argument(s): keys/values 1 symbolic byte, numbers 1 symbolic digit with optional sign, keywords in any letter case
+    c16_armv_getrange, "C16", experimental, 12, ascii, 900 => c16::arm_spec(b"GETRANGE", &[A::S(1), A::D(1), A::D(1)], c16arm!(GETRANGE)); // GETRANGE arm of both parsers (S7), 3 argument(s): keys/values 1 symbolic byte, numbers 1 symbolic digit with optional sign, keywords in any letter case
+    c16_armv_setrange, "C16", experimental, 12, ascii, 900 => c16::arm_spec(b"SETRANGE", &[A::S(1), A::G(1), A::S(1)], c16arm!(SETRANGE)); // SETRANGE arm of both parsers (S7), 3 argument(s): keys/values 1 symbolic byte, numbers 1 symbolic digit with optional sign, keywords in any letter case
+    c16_armv_keys, "C16", experimental, 12, ascii, 900 => c16::arm_spec(b"KEYS", &[A::S(1)], c16arm!(KEYS)); // KEYS arm of both parsers (S7), 1 argument(s): keys/values 1 symbolic byte, numbers 1 symbolic digit with optional sign, keywords in any letter case
+    c16_armv_echo, "C16", experimental, 12, ascii, 900 => c16::arm_spec(b"ECHO", &[A::S(1)], c16arm!(ECHO)); // ECHO arm of both parsers (S7), 1 argument(s): keys/values 1 symbolic byte, numbers 1 symbolic digit with optional sign, keywords in any letter case
+    c16_armv_select, "C16", experimental, 12, ascii, 900 => c16::arm_spec(b"SELECT", &[A::G(1)], c16arm!(SELECT)); // SELECT arm of both parsers (S7), 1 argument(s): keys/values 1 symbolic byte, numbers 1 symbolic digit with optional sign, keywords in any letter case
+    c16_armv_ping, "C16", experimental, 12, ascii, 900 => c16::arm_spec(b"PING", &[], c16arm!(PING)); // PING arm of both parsers (S7), 0 argument(s): keys/values 1 symbolic byte, numbers 1 symbolic digit with optional sign, keywords in any letter case
+    c16_armv_ping_msg, "C16", experimental, 12, ascii, 900 => c16::arm_spec(b"PING", &[A::S(1)], c16arm!(PING)); // PING arm of both parsers (S7), 1 argument(s): keys/values 1 symbolic byte, numbers 1 symbolic digit with optional sign, keywords in any letter case
+    c16_armv_watch, "C16", experimental, 12, ascii, 900 => c16::arm_spec(b"WATCH", &[A::S(1)], c16arm!(WATCH)); // WATCH arm of both parsers (S7), 1 argument(s): keys/values 1 symbolic byte, numbers 1 symbolic digit with optional sign, keywords in any letter case
+    c16_armv_multi, "C16", experimental, 12, ascii, 900 => c16::arm_spec(b"MULTI", &[], c16arm!(MULTI)); // MULTI arm of both parsers (S7), 0 argument(s): keys/values 1 symbolic byte, numbers 1 symbolic digit with optional sign, keywords in any letter case
+    c16_armv_exec, "C16", experimental, 12, ascii, 900 => c16::arm_spec(b"EXEC", &[], c16arm!(EXEC)); // EXEC arm of both parsers (S7), 0 argument(s): keys/values 1 symbolic byte, numbers 1 symbolic digit with optional sign, keywords in any letter case
+    c16_armv_discard, "C16", experimental, 12, ascii, 900 => c16::arm_spec(b"DISCARD", &[], c16arm!(DISCARD)); // DISCARD arm of both parsers (S7), 0 argument(s): keys/values 1 symbolic byte, numbers 1 symbolic digit with optional sign, keywords in any letter case
+    c16_armv_dbsize, "C16", experimental, 12, ascii, 900 => c16::arm_spec(b"DBSIZE", &[], c16arm!(DBSIZE)); // DBSIZE arm of both parsers (S7), 0 argument(s): keys/values 1 symbolic byte, numbers 1 symbolic digit with optional sign, keywords in any letter case
+    c16_armv_flushdb, "C16", experimental, 12, ascii, 900 => c16::arm_spec(b"FLUSHDB", &[], c16arm!(FLUSHDB)); // FLUSHDB arm of both parsers (S7), 0 argument(s): keys/values 1 symbolic byte, numbers 1 symbolic digit with optional sign, keywords in any letter case
+    c18_sync_offer_c2, "C18", experimental, 12, hasher, 900 => c18::sync_offer(); // get_keys_in_buckets, limit 1, two keys in different buckets (depth 1), only the second bucket requested
+    c18_sync_rounds_3_c2, "C18", experimental, 12, hasher, 900 => c18::sync_rounds(3); // 2 keys in one bucket, limit 1, 3 rounds of offer+apply: the peer must hold both
 }
